@@ -141,7 +141,7 @@ func hostConstRebind(ic *IC, e ast.Expr) *types.Const {
 	if !ok || len(call.Args) != 1 {
 		return nil
 	}
-	if !isCallTo(ic.Info, call, "go/constant.MakeInt64", "go/constant.MakeUint64", "go/constant.Make") {
+	if !isCallTo(ic.Info, call, "go/constant.MakeInt64", "go/constant.MakeUint64", "go/constant.MakeString", "go/constant.MakeFloat64", "go/constant.Make") {
 		return nil
 	}
 	a := unparen(call.Args[0])
